@@ -666,6 +666,7 @@ func runC14(c *Ctx) {
 	checkRemovalErrorsReported(c, "R14.9")
 	checkConfigSectionRemoval(c, "R14.10")
 	checkRemoveIndexUnderLock(c, "R14.11", newLockWorld(w))
+	checkRefsToIdsTotal(c, "R14.12")
 	c.Doc("R14.1", "RemoveRef arguments evaluate to refs/‹ns›/‹id› and refs/remotes/‹remote›/‹ns›/‹id›, remote ranging over the keys of GetRemotes(); same remote-ref shape as the fetch destination and the MergeAll prefix; identity.Remove removes single full-id matches of ListRefs only")
 	c.Doc("R14.2", "SubCache.Remove/RemoveAll: entity removal, delete from cached/excerpts, lru.Remove, index removal, write() on every success path")
 	c.Doc("R14.3", "runWipe: RemoveAll → ClearUserIdentity → LocalConfig().RemoveAll(\"git-bug\") → Close → LocalStorage.RemoveAll(\".\"), backend closed on every error exit before Close")
